@@ -492,7 +492,7 @@ def c03_monitor(case, frames):
             cancel_seq = min([seq for seq, k, a in evs if k == "CL_CANCEL"] or [None]) if cancelled else None
             if cancelled and not explicit and flag == "R":
                 if cancel_seq is not None and last["begin"] > cancel_seq:
-                    # the known finding: a cycle rendered AFTER the cancellation still draws the bar running
+                    # D9 / D9b (repaired in /repo): a cycle rendered AFTER the cancellation still draws the bar running
                     sig = "cancelled-bar-drawn-running-in-last-frame"
                 else:
                     # no cycle at all was rendered after the cancellation: the last frame predates it
